@@ -305,6 +305,23 @@ def native_documents(repo, tier):
     return {"obligations": obls, "undecided": und}
 
 
+def slide_text_fragments(repo, tier):
+    """Slide text of odp / pptx: the paragraph loops of odp_extractor._extract_slide and the placeholder classification of
+    pptx_extractor._process_slide_from_context are under C02's fragment contracts (every visible paragraph / shape text is stored
+    exactly once in title / body_text / other_text, i.e. in the text of ITS slide's unit).  C03 shares them (same real AST fragments,
+    same executor); the obligations are listed under C03 because a text that is stored nowhere is in no unit."""
+    from contracts import C02
+    r = C02.fragment_obligations(repo, tier)
+
+    def ren(x):
+        return ("C03/" + x[4:]) if isinstance(x, str) and x.startswith("C02/") else x
+    for o in r.get("obligations", []):
+        o["id"] = ren(o["id"])
+    for u in r.get("undecided", []):
+        u["obligation"] = ren(u.get("obligation"))
+    return r
+
+
 def known_findings(kf, violations, repo, tier):
     """Recorded genuine defects: every witness is replayed natively; one that still fails prints KNOWN-FINDING.  The
     findings exclude document FEATURES from the bounded section scope of their class (listed in the evidence); they
